@@ -54,15 +54,38 @@ Corollary assoc_three e0 o1 e1 o2 e2 :
   right_assoc [e0; o1; e1; o2; e2] = node o1 e0 (node o2 e1 e2).
 Proof. split; reflexivity. Qed.
 
-(* the operands appear in the tree in the order of the text: the in-order walk of the tree gives back the flat list
-   (stated for operands that are not themselves operator nodes: leaves) *)
-Fixpoint inorder (fuel : nat) (leaf : value -> bool) (v : value) : list value :=
-  match fuel with
-  | O => [v]
-  | S fuel' =>
-    if leaf v then [v] else
-    match v with
-    | VList false [op; l; r] => inorder fuel' leaf l ++ [op] ++ inorder fuel' leaf r
-    | _ => [v]
-    end
-  end.
+(* nothing is lost, duplicated or reordered: the value is a binary tree whose in-order walk is the flat list of the join *)
+Inductive tree := TLeaf (v : value) | TNode (op : value) (l r : tree).
+Fixpoint tval (t : tree) : value :=
+  match t with TLeaf v => v | TNode op l r => node op (tval l) (tval r) end.
+Fixpoint tin (t : tree) : list value :=
+  match t with TLeaf v => [v] | TNode op l r => tin l ++ [op] ++ tin r end.
+(* left-leaning: every right child is an operand; right-leaning: every left child is *)
+Fixpoint left_leaning (t : tree) : Prop :=
+  match t with TLeaf _ => True | TNode _ l (TLeaf _) => left_leaning l | _ => False end.
+Fixpoint right_leaning (t : tree) : Prop :=
+  match t with TLeaf _ => True | TNode _ (TLeaf _) r => right_leaning r | _ => False end.
+
+Lemma left_fold_tree ps : forall t, left_leaning t ->
+  exists t', fold_left (fun a p => node (fst p) a (snd p)) ps (tval t) = tval t' /\ tin t' = tin t ++ flat ps /\ left_leaning t'.
+Proof.
+  induction ps as [|[op e] ps IH]; intros t L; cbn [fold_left flat].
+  - exists t. rewrite app_nil_r. split; [reflexivity|split; [reflexivity|exact L]].
+  - destruct (IH (TNode op t (TLeaf e)) L) as [t' [E [I L']]]. exists t'. split; [exact E|]. split; [|exact L'].
+    rewrite I. cbn [tin fst snd]. rewrite <- !app_assoc. reflexivity.
+Qed.
+
+Theorem left_join_inorder e0 ps :
+  exists t, left_assoc (e0 :: flat ps) = tval t /\ tin t = e0 :: flat ps /\ left_leaning t.
+Proof.
+  rewrite left_assoc_spec. destruct (left_fold_tree ps (TLeaf e0) I) as [t [E [H L]]]. exists t. repeat split; assumption.
+Qed.
+
+Theorem right_join_inorder ps : forall e0,
+  exists t, right_assoc (e0 :: flat ps) = tval t /\ tin t = e0 :: flat ps /\ right_leaning t.
+Proof.
+  induction ps as [|[op e] ps IH]; intros e0; rewrite right_assoc_spec.
+  - exists (TLeaf e0). split; [reflexivity|split; [reflexivity|exact I]].
+  - destruct (IH e) as [t [E [H R]]]. rewrite right_assoc_spec in E.
+    exists (TNode op (TLeaf e0) t). cbn [right_nest tval tin flat right_leaning]. rewrite E, H. split; [reflexivity|split; [reflexivity|exact R]].
+Qed.
